@@ -325,6 +325,52 @@ def r5(ctx, rep):
     rep.check(ok, "span-to-range", "Range::from(Span) must be start..end", file="prqlc/prqlc-parser/src/span.rs")
 
 
+def paths_through_locals(A, e, depth=0):
+    out = set()
+    for x in walk(e):
+        if x.get("k") == "path" and "::" not in x["p"]:
+            out.add(x["p"])
+            init = A._init_of(x, x["p"]) if depth < 3 else None
+            if init is not None:
+                out |= paths_through_locals(A, init, depth + 1)
+    return out
+
+
+def r6(ctx, rep):
+    import alpha
+    import re
+    rep.rule("C13.R6", "an error that quotes what it found points at that expression (`found: write_pl(x)` goes with `x.span`)", floor=6)
+    syn = ctx.syn
+    n_sites = 0
+    for f in syn.fns:
+        if f["crate"] != "prqlc" or "body" not in f or "/semantic/" not in f["file"]:
+            continue
+        k = 0
+        A = None
+        for n in walk(f["body"]):
+            if not (n.get("k") == "mcall" and n["m"] == "with_span" and n["a"]):
+                continue
+            a = n["a"][0]
+            if not (a.get("k") == "field" and a.get("f") == "span" and a["e"].get("k") == "path"):
+                continue
+            pointed = a["e"]["p"]
+            quoted = set()
+            for st in walk(n["r"]):
+                if st.get("k") == "struct" and last_seg(st["p"]) == "Expected":
+                    for fname, fv in st["f"]:
+                        if fname == "found":
+                            if A is None:
+                                A = alpha.Inliner(f)
+                            quoted |= paths_through_locals(A, fv)   # locals followed to what they were computed from
+            if not quoted or pointed == "self":
+                continue
+            n_sites += 1
+            k += 1
+            rep.check(pointed in quoted, f"points-at-found:{f['path']}:{k}", f"the error quotes `{sorted(quoted)}` as what was found but carries the span of `{pointed}`: the message then points at another argument "
+                      "(or, for a defaulted argument, at a position inside the standard library, which is not a file of the project)", file=f["file"], line=n["l"], fn=f["path"])
+    rep.check(n_sites >= 6, "sites", f"expected >= 6 `Reason::Expected {{ found: .. }}` errors with a span in the semantic stage, found {n_sites}")
+
+
 def run(ctx, rep):
-    for r in (r1, r3, r4, r5):
+    for r in (r1, r3, r4, r5, r6):
         rep.guard(r, ctx)
